@@ -71,6 +71,26 @@ theorem sinv_step (full : Tid → List Act) (g : G) (progs : Tid → List Act) (
         · simp only [if_neg hx]
           have hgx : g.owner ≠ some x := by intro hh; rw [hown] at hh; injection hh with hh; exact hx hh.symm
           have := h.brk x; simpa [hgx] using this
+    | abortBuild =>
+      simp only [act] at hact
+      obtain ⟨rfl, rfl⟩ : ({ owner := none, table := [] } : G) = g' ∧ Obs.buildFailed = o := by
+        injection hact with h1; injection h1 with h1 h2; exact ⟨h1, h2⟩
+      refine ⟨?_, ?_, fun _ => rfl⟩
+      · intro x
+        have hvx : view ({ owner := none, table := [] } : G) x = g0 := by simp [view]
+        by_cases hx : x = t
+        · subst hx
+          simp only [if_true, hvx, List.append_assoc]
+          rw [← he]; simp [solo, act, g0]
+        · simp only [if_neg hx, hvx]
+          have hgx : g.owner ≠ some x := by intro hh; rw [hown] at hh; injection hh with hh; exact hx hh.symm
+          have he' := h.eqn x; rw [view_other hgx] at he'; exact he'
+      · intro x
+        by_cases hx : x = t
+        · subst hx; simp only [if_true]; simp [wellBracketed] at hb; simpa using hb
+        · simp only [if_neg hx]
+          have hgx : g.owner ≠ some x := by intro hh; rw [hown] at hh; injection hh with hh; exact hx hh.symm
+          have := h.brk x; simpa [hgx] using this
   · -- t is not describing
     have hv : view g t = g0 := view_other hown
     have he := h.eqn t
@@ -83,6 +103,7 @@ theorem sinv_step (full : Tid → List Act) (g : G) (progs : Tid → List Act) (
     cases a with
     | record f => simp [wellBracketed] at hb
     | endBuild => simp [wellBracketed] at hb
+    | abortBuild => simp [wellBracketed] at hb
     | beginBuild =>
       simp only [act] at hact
       cases ho : g.owner with
